@@ -55,7 +55,7 @@ def recv_ops(draw, n, counter, nmetrics=5, nts=4):
 @st.composite
 def concurrent_cases(draw, strategy=None):
   strategy = strategy or draw(st.sampled_from(cachesim.STRATEGIES))
-  counter = [0]
+  counter = [-1]       # values are unique ids 0, 1, 2, ...: the first one is the falsy 0
   nm = draw(st.integers(1, 5))
   nts = draw(st.integers(1, 4))
   recv = draw(recv_ops(draw(st.integers(2, 9)), counter, nm, nts))
@@ -71,7 +71,7 @@ def concurrent_cases(draw, strategy=None):
 @st.composite
 def sequential_cases(draw, strategy=None):
   strategy = strategy or draw(st.sampled_from(cachesim.STRATEGIES))
-  counter = [0]
+  counter = [-1]       # values are unique ids 0, 1, 2, ...: the first one is the falsy 0
   nm = draw(st.integers(1, 5))
   nts = draw(st.integers(1, 4))
   ops = []
@@ -210,7 +210,7 @@ def enumerate_bounded(ctx, strategies):
 
 DUP_WORKLOADS = [
   [[['store', 'a', 1, 1], ['store', 'a', 2, 2], ['store', 'b', 1, 3], ['store', 'a', 2, 4], ['store', 'a', 3, 5]], [['drain'], ['drain']]],
-  [[['store', 'a', 1, 1], ['store', 'a', 1, 2], ['store', 'b', 1, 3], ['store', 'b', 1, 4]], [['drain'], ['drain'], ['drain']]],
+  [[['store', 'a', 1, 0], ['store', 'a', 1, 2], ['store', 'b', 1, 3], ['store', 'b', 1, 4]], [['drain'], ['drain'], ['drain']]],
 ]
 
 
